@@ -474,27 +474,49 @@ func SqlSymRows(db *sql.DB, table string, n int) {
 		present := Bool(pfx + "present")
 		var names, qs []string
 		var args []any
+		cells := map[string]rowCell{}
+		hasSecret := false
+		for _, c := range cols {
+			if c.name == "secret" {
+				hasSecret = true
+			}
+		}
 		for _, c := range cols {
 			names = append(names, c.name)
 			qs = append(qs, "?")
-			isnull := false
-			if !c.notnull {
-				isnull = Bool(pfx + c.name + ".null")
+			if c.name == "y" && hasSecret {
+				args = append(args, nil) // derived below
+				continue
 			}
 			var v any
 			switch c.typ {
 			case "INTEGER":
-				v = I64(pfx + c.name)
+				x := I64(pfx + c.name)
+				v = x
+				cells[c.name] = rowCell{u: uint64(x)}
 			case "BOOLEAN":
-				v = Bool(pfx + c.name)
+				x := Bool(pfx + c.name)
+				v = x
+				cells[c.name] = rowCell{b: x}
 			default:
-				v = Str(pfx + c.name)
-			}
-			if isnull {
-				v = nil
+				x := Str(pfx + c.name)
+				v = x
+				cells[c.name] = rowCell{s: x}
 			}
 			args = append(args, v)
 		}
+		if hasSecret {
+			for i, c := range cols {
+				if c.name == "y" {
+					y := hex.EncodeToString(hashToCurve([]byte(cells["secret"].s)).SerializeCompressed())
+					args[i] = y
+					cells["y"] = rowCell{s: y}
+				}
+			}
+		}
+		key := fmt.Sprintf("%s.%d", table, i)
+		symRows[key] = cells
+		symPresent[key] = present
 		if !present {
 			continue
 		}
@@ -504,6 +526,57 @@ func SqlSymRows(db *sql.DB, table string, n int) {
 			panic(assumeFailed{})
 		}
 	}
+}
+
+type rowCell struct{ s string; u uint64; b bool }
+
+var symRows = map[string]map[string]rowCell{}
+var symPresent = map[string]bool{}
+
+func SqlRowPresent(db *sql.DB, table string, i int) bool { return symPresent[fmt.Sprintf("%s.%d", table, i)] }
+func SqlRowStr(db *sql.DB, table string, i int, col string) string {
+	return symRows[fmt.Sprintf("%s.%d", table, i)][col].s
+}
+func SqlRowU64(db *sql.DB, table string, i int, col string) uint64 {
+	return symRows[fmt.Sprintf("%s.%d", table, i)][col].u
+}
+
+func PickStr(idx uint64, options ...string) string { return options[idx] }
+func PickU64(idx uint64, options ...uint64) uint64 { return options[idx] }
+func PickPriv(idx uint64, options ...*secp256k1.PrivateKey) *secp256k1.PrivateKey {
+	return options[idx]
+}
+
+// UF64: the graph of the uninterpreted function as the model fixed it ("uf.<name>": [[arg,res],..])
+func UF64(name string, x uint64) uint64 {
+	load()
+	raw, ok := script["uf."+name]
+	if !ok {
+		return 0
+	}
+	var pairs [][]string
+	json.Unmarshal(raw, &pairs)
+	for _, p := range pairs {
+		a, _ := new(big.Int).SetString(p[0], 10)
+		if a != nil && a.IsUint64() && a.Uint64() == x {
+			r, _ := new(big.Int).SetString(p[1], 10)
+			return r.Uint64()
+		}
+	}
+	return 0
+}
+
+func hashToCurve(msg []byte) *secp256k1.PublicKey {
+	h := sha256.Sum256(append([]byte("Secp256k1_HashToCurve_Cashu_"), msg...))
+	for c := uint32(0); c < 1<<16; c++ {
+		cb := []byte{byte(c), byte(c >> 8), byte(c >> 16), byte(c >> 24)}
+		hh := sha256.Sum256(append(h[:], cb...))
+		p, err := secp256k1.ParsePubKey(append([]byte{2}, hh[:]...))
+		if err == nil {
+			return p
+		}
+	}
+	panic("no point")
 }
 
 func dumpTables(db *sql.DB) string {
